@@ -397,11 +397,10 @@ func (f *Fragment) GetSampleInterval(trex *TrexBox, startSampleNr, endSampleNr u
 	tfhd, trun := traf.Tfhd, traf.Trun
 	moofStartPos := moof.StartPos
 	_ = trun.AddSampleDefaultValues(tfhd, trex)
-	var baseOffset uint64
+	// The default is moofStartPos according to Section 8.8.7.1
+	baseOffset := moofStartPos
 	if tfhd.HasBaseDataOffset() {
 		baseOffset = tfhd.BaseDataOffset
-	} else if tfhd.DefaultBaseIfMoof() {
-		baseOffset = moofStartPos
 	}
 	if trun.HasDataOffset() {
 		baseOffset = uint64(int64(trun.DataOffset) + int64(baseOffset))
